@@ -168,7 +168,7 @@ def mutants(seed, only=None):
     for name, prop, patch in mutant_list():
         if only and only not in name:
             continue
-        st, info, dt = run_mutant(name, prop, patch, seed)
+        st, info, dt = run_mutant(name, prop, patch, seed, os.environ.get('VERIF_MUTANT_TIER', 'quick'))
         print('[selftest] mutant %-45s %s %-8s %5.1fs  %s' % (name, prop, st, dt, info.replace('\n', ' ')[:200]), flush=True)
         res.append((name, st))
     missed = [n for n, s in res if s != 'caught']
